@@ -197,6 +197,25 @@ func (w *c12walker) check(t types.Type, node analysis.Type, path string) {
 			w.fail("links-consistent", "struct field count", fmt.Sprintf("%s: struct %s has %d fields (embedded structs flattened), node lists %d", path, ut, len(want), len(n.Fields)))
 			return
 		}
+		// the type of a flattened embedded field is reachable through that field: it has its own node
+		st := named.Underlying().(*types.Struct)
+		for i := 0; i < st.NumFields(); i++ {
+			f := st.Field(i)
+			jsonName, _, _ := strings.Cut(reflect.StructTag(st.Tag(i)).Get("json"), ",")
+			ft := types.Unalias(f.Type())
+			if _, isStruct := ft.Underlying().(*types.Struct); !f.Embedded() || jsonName != "" || !isStruct || isTimeLike(ft) {
+				continue
+			}
+			if _, isNamed := ft.(*types.Named); !isNamed {
+				continue
+			}
+			sub, ok := w.an.Types[ft]
+			if !ok {
+				w.fail("closed", "embedded struct type missing from Types", fmt.Sprintf("%s.%s: the embedded (flattened) struct type %s is not a key of Analysis.Types", path, f.Name(), ft))
+				continue
+			}
+			w.check(ft, sub, path+"."+f.Name()+"<embedded>")
+		}
 		for i, f := range want {
 			if n.Fields[i].Field != f {
 				w.fail("links-consistent", "struct field identity", fmt.Sprintf("%s: field %d of %s is %s, node lists %s", path, i, ut, f.Name(), n.Fields[i].Field.Name()))
